@@ -314,6 +314,8 @@ def _r6(db, rep):
     _silent_write_announced(db, r7)
     r8 = rep.rule('r8', 'TRANSLATIONS-PRESENT: the translations of an operation exist only after it was executed; every dereference of them is dominated by a non-null test (a document can be attached to a pictogram that was never executed), and such a pictogram is not reported as done', 3)
     _translations_guard(db, r8)
+    r9 = rep.rule('r9', 'CELL-FREE: a pictogram is put only into a grid cell that was computed as free (ClosestFreePos / ChildPosFor) or whose occupancy was examined on the way: two pictograms never end up sharing a cell, none loses its cell to another', 2)
+    _cell_free(db, r9)
     r6 = rep.rule('r6', 'HANDLE-ACCESS / LOAD-PARENT: the raw source pointer of a handle is read only inside ossSourceFacet; LoadParent refuses exactly the connections that are self-connections, duplicates or close a loop of any length (the parent relation of a loaded document is acyclic)', 2)
     SF = O + 'ossSourceFacet'
     offenders = []
@@ -468,3 +470,81 @@ def _translations_guard(db, r8):
             r8.violation('StatusOf', '%s:%d' % (st.file, st.line), 'StatusOf reports `done` for any pictogram with a non-empty document, also one that was never executed (no translations): the attached document is shown as the current synthesis of its parents')
     if not n_sites:
         r8.broken('no dereference of ossOperationsFacet translations found')
+
+
+def _cell_free(db, r9):
+    """Every call of ossGridFacet::SetPosFor (the one writer that overwrites a cell unconditionally): the position is a free-cell expression -
+    the result of ClosestFreePos / ChildPosFor, a local initialised with one, or a parameter of a non-public function all of whose callers pass
+    one - or every path to the call that does not assign such a result to it passes a condition that asks who occupies that position."""
+    from engine.cfgq import enumerate_paths
+    GF = 'ccl::oss::ossGridFacet'
+    FREE = (GF + '::ClosestFreePos', GF + '::ChildPosFor')
+    def occupancy(f, c, did):
+        if occupancy0(f, c, did):
+            return True
+        # `if (const auto occupant = operator()(pos); occupant.has_value() ...)`: the condition reads a local that holds the answer
+        for y in f.walk(c):
+            if y['k'] == 'DeclRefExpr' and y.get('dk') == 'local':
+                for s0 in f.rec['stmts']:
+                    if s0['k'] == 'DeclStmt':
+                        for d in s0.get('decls', []):
+                            if d.get('did') == y.get('did') and 'init' in d and occupancy0(f, f.stmts[d['init']], did):
+                                return True
+        return False
+    occupancy0 = lambda f, c, did: any(x['k'] in ('CXXOperatorCallExpr', 'CXXMemberCallExpr', 'CallExpr') and ((x.get('cs') or '') == GF + '::operator()' or (x.get('cs') or '').split('::')[-1] in ('contains', 'count', 'find'))
+                                      and any(y['k'] == 'DeclRefExpr' and y.get('did') == did for y in f.walk(x)) for x in f.walk(c))
+
+    def free_expr(f, node, depth=0):
+        n = f.strip(node)
+        if n is None:
+            return False
+        if n['k'] in ('CallExpr', 'CXXMemberCallExpr') and (n.get('cs') or '') in FREE:
+            return True
+        if n['k'] in ('CXXConstructExpr', 'CXXTemporaryObjectExpr') and len(n.get('args', [])) == 1:
+            return free_expr(f, f.stmts[n['args'][0]], depth)
+        if n['k'] == 'DeclRefExpr' and n.get('dk') == 'local':
+            inits = [d for s0 in f.rec['stmts'] if s0['k'] == 'DeclStmt' for d in s0.get('decls', []) if d.get('did') == n.get('did') and 'init' in d]
+            writes = [c for c in f.calls() if c['k'] == 'CXXOperatorCallExpr' and c.get('op') == '=' and c.get('args') and (f.strip(f.stmts[c['args'][0]]) or {}).get('did') == n.get('did')]
+            bin_writes = [b for b in f.walk() if b['k'] == 'BinaryOperator' and b.get('op') == '=' and (f.strip(f.children(b)[0]) or {}).get('did') == n.get('did')]
+            return bool(inits) and all(free_expr(f, f.stmts[d['init']], depth) for d in inits) and all(free_expr(f, f.stmts[c['args'][1]], depth) for c in writes) and all(free_expr(f, f.children(b)[1], depth) for b in bin_writes)
+        if n['k'] == 'DeclRefExpr' and n.get('dk') == 'param' and depth < 2 and f.rec.get('access') in ('private', 'protected', 1, 2):
+            sites = [(g, c) for g in db.functions if g.body >= 0 for c in g.calls() if c.get('mn') == f.rec.get('mn') and c.get('args')]
+            return bool(sites) and all(len(c['args']) > n.get('pidx', 99) and site_ok(g, c, n['pidx'], depth + 1) for g, c in sites)
+        return False
+
+    def site_ok(f, c, argi, depth=0):
+        """the position passed at this call is a free cell, or its occupancy was examined on every path that does not replace it by one"""
+        if free_expr(f, f.stmts[c['args'][argi]], depth):
+            return True
+        posn = f.strip(f.stmts[c['args'][argi]])
+        if posn is None or posn['k'] != 'DeclRefExpr' or not f.has_cfg():
+            return False
+        did = posn.get('did')
+        assigns = [f.position_of(b) for b in f.walk() if ((b['k'] == 'BinaryOperator' and b.get('op') == '=' and (f.strip(f.children(b)[0]) or {}).get('did') == did and free_expr(f, f.children(b)[1], depth))
+                                                            or (b['k'] == 'CXXOperatorCallExpr' and b.get('op') == '=' and b.get('args') and (f.strip(f.stmts[b['args'][0]]) or {}).get('did') == did and free_expr(f, f.stmts[b['args'][1]], depth)))]
+        assigns = [p_ for p_ in assigns if p_ is not None]
+        pos = f.position_of(c)
+        if pos is None:
+            return False
+        paths = enumerate_paths(f, f.graph()[1], [pos], avoid=assigns, limit=200)
+        return all(any(occupancy(f, cond, did) for cond, _pol in path) for path in paths)
+    n_sites = 0
+    for f in sorted(db.functions, key=lambda x: x.name):
+        if f.body < 0 or not f.has_cfg() or not f.name.startswith('ccl::oss::'):
+            continue
+        for c in f.calls():
+            if (c.get('cs') or '') != GF + '::SetPosFor' or len(c.get('args', [])) < 2:
+                continue
+            n_sites += 1
+            inst = '%s:SetPosFor' % f.name.split('::')[-1]
+            if free_expr(f, f.stmts[c['args'][1]]):
+                r9.ok(inst, 'the position is computed as a free cell (here or by every caller)', f.loc(c))
+                continue
+            ok = site_ok(f, c, 1)
+            if ok:
+                r9.ok(inst, 'every path either takes a free cell or has asked who occupies the target cell', f.loc(c))
+            else:
+                r9.violation(inst, f.loc(c), '`%s` overwrites the cell whatever it holds: the position comes from the caller and no path asks who occupies it - LoadPosition(first, cell of second) leaves the second pictogram without a cell '
+                             '(serialising the schema then throws bad_optional_access)' % (c.get('txt') or '')[:60])
+    if not n_sites:
+        r9.broken('no call of ossGridFacet::SetPosFor found')
